@@ -180,9 +180,16 @@ func (h *history) step() {
 				ret = recv.MultiScalarMult(ss, pp)
 			}
 		case 12:
-			desc = fmt.Sprintf("%s = Set(p%d)", rname, a)
 			want = h.mpts[a]
-			ret = recv.Set(h.pts[a])
+			if r.Bool() {
+				desc = fmt.Sprintf("%s = Set(p%d)", rname, a)
+				ret = recv.Set(h.pts[a])
+			} else {
+				// the types are plain values: a copy by assignment is a distinct, equal value
+				desc = fmt.Sprintf("%s = value copy of p%d (plain assignment)", rname, a)
+				*recv = *h.pts[a]
+				ret = recv
+			}
 		case 13: // decode: valid canonical / non-canonical / invalid (receiver must stay)
 			m, _ := r.ModelPoint()
 			enc := encOf(m)
@@ -412,7 +419,7 @@ func (h *history) step() {
 }
 
 func stepKind(desc string) string {
-	for _, k := range []string{"Add", "Subtract", "Negate", "MultByCofactor", "VarTimeDoubleScalarBaseMult", "VarTimeMultiScalarMult", "MultiScalarMult", "ScalarBaseMult(", "ScalarMult(", "Set(", "SetBytes", "SetExtendedCoordinates", "NewIdentityPoint", "scalar-op", "Equal", "BytesMontgomery", "Scalar.Bytes", "Bytes", "ExtendedCoordinates"} {
+	for _, k := range []string{"Add", "Subtract", "Negate", "MultByCofactor", "VarTimeDoubleScalarBaseMult", "VarTimeMultiScalarMult", "MultiScalarMult", "ScalarBaseMult(", "ScalarMult(", "Set(", "value copy", "SetBytes", "SetExtendedCoordinates", "NewIdentityPoint", "scalar-op", "Equal", "BytesMontgomery", "Scalar.Bytes", "Bytes", "ExtendedCoordinates"} {
 		for i := 0; i+len(k) <= len(desc); i++ {
 			if desc[i:i+len(k)] == k {
 				return k
